@@ -35,7 +35,7 @@ Lemma called_s_app a b : stream_listeners_called (a ++ b) = stream_listeners_cal
 Proof. unfold stream_listeners_called. now rewrite map_app, concat_app. Qed.
 
 Lemma calls_c_tell l ls m o a fl : NoDup ls ->
-  calls_of_circ l (tell_c ls m o a fl) = if memN l ls then [(m, o, a, fl)] else [].
+  calls_of_circ l (tell_c ls m o a fl) = if memN l ls then [(m, o, carg l m a, fl)] else [].
 Proof.
   unfold calls_of_circ, tell_c. induction 1 as [|x t Hn Hd IH]; cbn [map concat memN]; [reflexivity|].
   rewrite IH. rewrite (N.eqb_sym l x). destruct (N.eqb_spec x l) as [->|E]; cbn [orb app].
@@ -43,7 +43,7 @@ Proof.
   - reflexivity.
 Qed.
 Lemma calls_s_tell l ls m o a fl : NoDup ls ->
-  calls_of_stream l (tell_s ls m o a fl) = if memN l ls then [(m, o, a, fl)] else [].
+  calls_of_stream l (tell_s ls m o a fl) = if memN l ls then [(m, o, carg l m a, fl)] else [].
 Proof.
   unfold calls_of_stream, tell_s. induction 1 as [|x t Hn Hd IH]; cbn [map concat memN]; [reflexivity|].
   rewrite IH. rewrite (N.eqb_sym l x). destruct (N.eqb_spec x l) as [->|E]; cbn [orb app].
@@ -51,13 +51,13 @@ Proof.
   - reflexivity.
 Qed.
 
-Lemma calls_c_tells l ls script : NoDup ls -> calls_of_circ l (tells_c ls script) = if memN l ls then script else [].
+Lemma calls_c_tells l ls script : NoDup ls -> calls_of_circ l (tells_c ls script) = if memN l ls then map (qcall l) script else [].
 Proof.
   intros H. unfold tells_c. induction script as [|[[[m o] a] fl] t IH]; cbn [map concat].
   - now destruct (memN l ls).
   - rewrite calls_c_app, IH, (calls_c_tell l ls m o a fl H). now destruct (memN l ls).
 Qed.
-Lemma calls_s_tells l ls script : NoDup ls -> calls_of_stream l (tells_s ls script) = if memN l ls then script else [].
+Lemma calls_s_tells l ls script : NoDup ls -> calls_of_stream l (tells_s ls script) = if memN l ls then map (qcall l) script else [].
 Proof.
   intros H. unfold tells_s. induction script as [|[[[m o] a] fl] t IH]; cbn [map concat].
   - now destruct (memN l ls).
@@ -132,13 +132,13 @@ Inductive told_s (ls : list N) : list nev -> list call -> Prop :=
 | ts_done a rest sc : only_dones a -> told_s ls rest sc -> told_s ls (a ++ rest) sc.
 
 Lemma told_c_facts ls es sc : NoDup ls -> told_c ls es sc ->
-  (forall l, calls_of_circ l es = if memN l ls then sc else []) /\
+  (forall l, calls_of_circ l es = if memN l ls then map (qcall l) sc else []) /\
   (forall l, In l (circ_listeners_called es) -> In l ls) /\ stream_listeners_called es = [].
 Proof.
   intros Hnd. induction 1 as [|script rest sc T [A [B C]]|a rest sc Ha T [A [B C]]].
   - split; [intros l; now destruct (memN l ls) | split; [intros l [] | reflexivity]].
   - split; [|split].
-    + intros l. rewrite calls_c_app, A, (calls_c_tells l ls script Hnd). destruct (memN l ls); reflexivity.
+    + intros l. rewrite calls_c_app, A, (calls_c_tells l ls script Hnd). destruct (memN l ls); [now rewrite map_app | reflexivity].
     + intros l. rewrite called_c_app. intros H. apply in_app_or in H as [H|H]; [eapply called_c_tells_in; eauto | auto].
     + now rewrite called_s_app, called_s_of_tells_c, C.
   - destruct (only_dones_quiet a Ha) as [Q1 [Q2 [Q3 Q4]]]. split; [|split].
@@ -147,13 +147,13 @@ Proof.
     + now rewrite called_s_app, Q4, C.
 Qed.
 Lemma told_s_facts ls es sc : NoDup ls -> told_s ls es sc ->
-  (forall l, calls_of_stream l es = if memN l ls then sc else []) /\
+  (forall l, calls_of_stream l es = if memN l ls then map (qcall l) sc else []) /\
   (forall l, In l (stream_listeners_called es) -> In l ls) /\ circ_listeners_called es = [].
 Proof.
   intros Hnd. induction 1 as [|script rest sc T [A [B C]]|a rest sc Ha T [A [B C]]].
   - split; [intros l; now destruct (memN l ls) | split; [intros l [] | reflexivity]].
   - split; [|split].
-    + intros l. rewrite calls_s_app, A, (calls_s_tells l ls script Hnd). destruct (memN l ls); reflexivity.
+    + intros l. rewrite calls_s_app, A, (calls_s_tells l ls script Hnd). destruct (memN l ls); [now rewrite map_app | reflexivity].
     + intros l. rewrite called_s_app. intros H. apply in_app_or in H as [H|H]; [eapply called_s_tells_in; eauto | auto].
     + now rewrite called_c_app, called_c_of_tells_s, C.
   - destruct (only_dones_quiet a Ha) as [Q1 [Q2 [Q3 Q4]]]. split; [|split].
@@ -171,19 +171,25 @@ Proof.
   unfold call_eqb. rewrite !N.eqb_refl, (H m o a fl (or_introl eq_refl)). reflexivity.
 Qed.
 
+Lemma flags_ok_qcall l sc : flags_ok sc -> flags_ok (map (qcall l) sc).
+Proof.
+  intros H m o a fl Hi. apply in_map_iff in Hi as [[[[m0 o0] a0] f0] [E Hi]]. cbn [qcall] in E. injection E as <- <- <- <-.
+  exact (H m0 o0 a0 f0 Hi).
+Qed.
+
 Lemma notif_ok_circ ls es sc : NoDup ls -> told_c ls es sc -> flags_ok sc -> notif_ok true ls sc es = true.
 Proof.
   intros Hnd T F. destruct (told_c_facts ls es sc Hnd T) as [A [B C]]. unfold notif_ok. rewrite C.
   apply andb_true_iff. split; [apply andb_true_iff; split; [reflexivity|]|].
   - apply forallb_forall. intros l Hl. apply memN_In. now apply B.
-  - apply forallb_forall. intros l Hl. rewrite A. apply memN_In in Hl. rewrite Hl. now apply calls_eqb_refl.
+  - apply forallb_forall. intros l Hl. rewrite A. apply memN_In in Hl. rewrite Hl. apply calls_eqb_refl. now apply flags_ok_qcall.
 Qed.
 Lemma notif_ok_stream ls es sc : NoDup ls -> told_s ls es sc -> flags_ok sc -> notif_ok false ls sc es = true.
 Proof.
   intros Hnd T F. destruct (told_s_facts ls es sc Hnd T) as [A [B C]]. unfold notif_ok. rewrite C.
   apply andb_true_iff. split; [apply andb_true_iff; split; [reflexivity|]|].
   - apply forallb_forall. intros l Hl. apply memN_In. now apply B.
-  - apply forallb_forall. intros l Hl. rewrite A. apply memN_In in Hl. rewrite Hl. now apply calls_eqb_refl.
+  - apply forallb_forall. intros l Hl. rewrite A. apply memN_In in Hl. rewrite Hl. apply calls_eqb_refl. now apply flags_ok_qcall.
 Qed.
 
 (* Tor's flags in both cases are a proper dict when the keywords are distinct and below 100 *)
